@@ -248,12 +248,20 @@ impl Transaction {
             return Err(Error::from(ErrorKind::InvalidInput));
         }
 
-        // slips that are about to be rebroadcast are skipped by generate_slips, so they
-        // cannot fund this transaction
-        let available_balance = wallet.get_spendable_balance(latest_block_id, genesis_period);
+        let available_balance = wallet.get_available_balance();
 
         if with_fee > available_balance {
             with_fee = 0;
+        }
+
+        // slips that are about to be rebroadcast are skipped by generate_slips. what is left
+        // has to cover the payments at least (a shortfall beyond that only lowers the fee)
+        if wallet.get_spendable_balance(latest_block_id, genesis_period) < total_payment {
+            debug!(
+                "not enough spendable funds to create transaction. required : {:?}",
+                total_payment
+            );
+            return Err(Error::from(ErrorKind::NotFound));
         }
 
         let total_requested = total_payment + with_fee;
